@@ -1450,6 +1450,11 @@ class Engine:
                 h = self.c.calls.get("iter:%s" % seq.cls)
                 if h is not None:
                     seq = h.handler(self, st, [seq], {}, node, exits)
+            if isinstance(seq, Tup) and all(isinstance(x, Num) for x in seq.items):      # a literal tuple of numbers: the sequence of its items
+                arr = z3.K(z3.IntSort(), z3.RealVal(0))
+                for k_, x in enumerate(seq.items):
+                    arr = z3.Store(arr, k_, x.real())
+                seq = Seq(arr, z3.IntVal(len(seq.items)), False)
             if isinstance(seq, Mat):              # rows of a matrix
                 n = seq.r
                 self.assign(gen.target, Seq(z3.Select(seq.arr, i), seq.c, False), sub, exits)
@@ -1519,7 +1524,8 @@ class Engine:
                 args = [self.eval(a, st, exits) for a in node.args]
                 kw = {k.arg: self.eval(k.value, st, exits) for k in node.keywords}
                 return self.c.calls[key].handler(self, st, args, kw, node, exits)
-            if name in st.env and isinstance(st.env[name], Const) and st.env[name].py == "numeric-type":
+            if name in st.env and isinstance(st.env[name], Const) and (st.env[name].py == "numeric-type" or st.env[name].py in (("builtin", "Fraction"), ("builtin", "float"))) \
+                    and len(node.args) == 1 and not node.keywords:
                 # cls(x): numeric embedding of an integer / number (int, float, Fraction) — value preserved
                 args = [self.eval(a, st, exits) for a in node.args]
                 return Num(args[0].real(), False)
